@@ -27,6 +27,7 @@ RULE = ('exhaustive: all 4096 subsets of the 12 value modifiers x {dtml-var '
 RULE += (
          'Identity formats (fmt="%s", s conversion) together with '
          'html_quote are escaped once. ')
+RULE += ('Round 9: the equal plain text is rendered as trusted data first. ')
 ASSUMPTIONS = [
     'literal template text and etc strings contain no "<"',
     'a rendering that raises contributes no output (allowed)',
